@@ -882,6 +882,19 @@ class _GroupElem(ABC):
 
         jacobian_e_pg = FeArray.asfearray(Det(F_e_pg))
 
+        if self.dim != self.inDim:
+            # an element embedded in a space of higher dimension (edge of a 2D mesh, face of a 3D mesh)
+            # may be curved: its measure comes from its tangent vectors in space (Gram determinant),
+            # not from their projection on the chord / on the plane of the first nodes.
+            connect = self._global_to_local_nodes[self.connect]
+            coord_e = self.coord[connect]
+            dN_pg = np.asarray(self.Get_dN_pg(matrixType))
+            tangents_e_pg = np.einsum("pdn,eni->epdi", dN_pg, coord_e)
+            gram_e_pg = tangents_e_pg @ tangents_e_pg.transpose(0, 1, 3, 2)
+            measure_e_pg = np.sqrt(np.abs(np.linalg.det(gram_e_pg)))
+            sign_e_pg = np.where(np.asarray(jacobian_e_pg) < 0, -1.0, 1.0)
+            jacobian_e_pg = FeArray.asfearray(sign_e_pg * measure_e_pg)
+
         if absoluteValues:
             jacobian_e_pg = np.abs(jacobian_e_pg)
 
